@@ -5,7 +5,7 @@ import json, os, re, subprocess, sys
 WT = '/tmp/wt/regress'
 ROOT = '/verif/seeded'
 EXTRA = {'C04-a': ['C05'], 'C09-a': ['C06', 'C09'], 'C03-b': ['C14'], 'C04-b': ['C16'], 'C06-b': ['C08'], 'C08-b': ['C06'],
-         'C02-c': ['C14'], 'C03-c': ['C01'], 'C10-c': ['C09'], 'C14-c': ['C05'], 'C11-d': ['C09'], 'C08-e': ['C09', 'C06'], 'C10-e': ['C11'], 'C16-e': ['C04'], 'C15-f': ['C05'], 'C08-f': ['C06'], 'C03-f': ['C04'], 'C02-h': ['C07'], 'C19-h': ['C20'], 'C13-j': ['C09'], 'C02-j': ['C07'], 'C19-j': ['C01']}
+         'C02-c': ['C14'], 'C03-c': ['C01'], 'C10-c': ['C09'], 'C14-c': ['C05'], 'C11-d': ['C09'], 'C08-e': ['C09', 'C06'], 'C10-e': ['C11'], 'C16-e': ['C04'], 'C15-f': ['C05'], 'C08-f': ['C06'], 'C03-f': ['C04'], 'C02-h': ['C07'], 'C19-h': ['C20'], 'C13-j': ['C09'], 'C02-j': ['C07'], 'C19-j': ['C01'], 'C13-k': ['C09'], 'C01-k': ['C03'], 'C04-k': ['C16']}
 
 
 def sh(cmd, **kw):
